@@ -607,6 +607,17 @@ def heap_elem_clone(W, rng, res, seed, script):
     x = W.objs[kind][xl]
     inp = {"seed": seed, "what": "corr", "heap_clone": kind, "label": xl, "script": script}
     off = max(W.counts().values()) + 1
+    if kind == "netlist" and rng.random() < 0.4:
+        # a top instance that is a CHILD of a definition outside this netlist (legal: any instance may be the top):
+        # the copy must have a top instance too
+        outside = [i for i in W.objs["instance"].values()
+                   if i._parent is not None and i._reference is not None and (i._parent._library is None or i._parent._library._netlist is not x)]
+        if outside:
+            try:
+                x.top_instance = rng.choice(sorted(outside, key=lambda i: W.lab[id(i)][1]))
+                inp["top_moved_to_outside_child"] = True
+            except Exception:
+                pass
     try:
         c = x.clone()
     except AssertionError:
